@@ -136,17 +136,30 @@ func judgeProm(pc *promCase) (sig, desc, sqlText string, undecided string) {
 	}
 	sort.SliceStable(diffs, func(i, j int) bool { return featRank(diffs[i].feat) < featRank(diffs[j].feat) })
 	d := diffs[0]
-	sig = fmt.Sprintf("matchers/prom/%s/%s", d.kind, d.feat)
+	sig = "matchers/prom/" + rootCause(d.feat)
 	if d.feat == "unexplained" {
-		sig += "/ops=" + opsKey(pc.Matchers)
+		sig += "/" + d.kind + "/ops=" + opsKey(pc.Matchers)
 	}
+	detail := d.kind + "/" + d.feat
 	verb := "is not selected although its labels satisfy every matcher"
 	if d.kind == "extra" {
 		verb = "is selected although its labels do not satisfy every matcher"
 	}
-	desc = fmt.Sprintf("matchers %s over %d stored series: series %s %s (Prometheus rules: anchored regex, absent label = \"\"); SQL: %s",
-		matchersString(pc.Matchers), len(pc.Series), labelsJSON(d.s.Labels), verb, clip(sqlText, 500))
+	desc = fmt.Sprintf("[%s] matchers %s over %d stored series: series %s %s (Prometheus rules: anchored regex, absent label = \"\"); SQL: %s",
+		detail, matchersString(pc.Matchers), len(pc.Series), labelsJSON(d.s.Labels), verb, clip(sqlText, 500))
 	return sig, desc, sqlText, ""
+}
+
+// rootCause groups the features by the defect behind them (the signature); the feature itself
+// stays in the description and in the coverage table.
+func rootCause(feat string) string {
+	switch {
+	case strings.HasSuffix(feat, "-on-absent-label"):
+		return "absent-label-not-seen-as-empty"
+	case strings.HasSuffix(feat, "-unanchored"):
+		return "regex-not-anchored"
+	}
+	return feat
 }
 
 func featRank(f string) int {
@@ -520,16 +533,17 @@ func judgePyro(pc *pyroCase) (sig, desc, sqlText, undecided string, probe bool) 
 	}
 	sort.SliceStable(diffs, func(i, j int) bool { return featRank(diffs[i].feat) < featRank(diffs[j].feat) })
 	d := diffs[0]
-	sig = fmt.Sprintf("matchers/pyro/%s/%s/%s", d.kind, d.feat, d.where)
+	sig = fmt.Sprintf("matchers/pyro/%s/%s", rootCause(d.feat), d.where)
 	if d.feat == "unexplained" {
-		sig += "/ops=" + opsKey(pc.Selectors)
+		sig += "/" + d.kind + "/ops=" + opsKey(pc.Selectors)
 	}
+	detail := d.kind + "/" + d.feat
 	verb := "is not selected although its labels satisfy every matcher"
 	if d.kind == "extra" {
 		verb = "is selected although its labels do not satisfy every matcher"
 	}
-	desc = fmt.Sprintf("selector %s over %d stored profile series: series {type %s:%s:%s, sample types %v, service_name %q, tags %v} %s; SQL: %s",
-		pyroSelectorText(pc.Selectors), len(pc.Series), d.s.Name, d.s.PeriodType, d.s.PeriodUnit, d.s.STU, d.s.Service, d.s.Tags, verb, clip(sqlText, 500))
+	desc = fmt.Sprintf("[%s] selector %s over %d stored profile series: series {type %s:%s:%s, sample types %v, service_name %q, tags %v} %s; SQL: %s",
+		detail, pyroSelectorText(pc.Selectors), len(pc.Series), d.s.Name, d.s.PeriodType, d.s.PeriodUnit, d.s.STU, d.s.Service, d.s.Tags, verb, clip(sqlText, 500))
 	return sig, desc, sqlText, "", probe
 }
 
@@ -828,7 +842,7 @@ func childMatchers(c *run.Ctx, cfg childCfg) {
 			c.Cover("prom case class", class, 1)
 			if sig != "" {
 				c.Event("matchers/prom: disagreements", 1)
-				c.Cover("matcher mismatch kinds", sig, 1)
+				c.Cover("matcher mismatch kinds", "prom "+strings.SplitN(strings.TrimPrefix(desc, "["), "]", 2)[0], 1)
 				w := pc
 				if !shrunk[sig] {
 					shrunk[sig] = true
@@ -895,7 +909,7 @@ func childMatchers(c *run.Ctx, cfg childCfg) {
 		c.Cover("pyro case class", class, 1)
 		if sig != "" {
 			c.Event("matchers/pyro: disagreements", 1)
-			c.Cover("matcher mismatch kinds", sig, 1)
+			c.Cover("matcher mismatch kinds", "pyro "+strings.SplitN(strings.TrimPrefix(desc, "["), "]", 2)[0], 1)
 			w := pc
 			if !shrunk[sig] {
 				shrunk[sig] = true
